@@ -4,6 +4,7 @@
 #define _GNU_SOURCE
 #include "drv.h"
 #include <sys/wait.h>
+#include <limits.h>
 #include <librfn/bitops.h>
 #include <librfn/constexpr.h>
 
@@ -19,13 +20,26 @@ static void v32(uint32_t x)
 	       x & 0xff, (x >> 8) & 0xff, (x >> 16) & 0xff, x >> 24, bitcnt(x), clz(x), ctz(x), x ? ilog2(x) : -1,
 	       o_pop(x), o_clz(x, 32), o_ctz(x, 32));
 }
+/* the call spelled with a compile-time-constant argument expression of whatever type the expression has (signed, negative,
+ * narrower than 32 bits): the argument is the expression converted to uint32_t, as the prototypes say */
+#define V32K(e) do { uint32_t x_ = (uint32_t)(e); \
+	printf("{\"e\":\"B32\",\"x\":[%u,%u,%u,%u],\"bitcnt\":%d,\"clz\":%d,\"ctz\":%d,\"ilog2\":%d,\"o\":[%d,%d,%d]}\n", \
+	       x_ & 0xff, (x_ >> 8) & 0xff, (x_ >> 16) & 0xff, x_ >> 24, (int)bitcnt(e), (int)clz(e), (int)ctz(e), x_ ? (int)ilog2(e) : -1, \
+	       o_pop(x_), o_clz(x_, 32), o_ctz(x_, 32)); } while (0)
+static void v32_constants(void)
+{
+	V32K(~0); V32K(-1); V32K(~0x0f); V32K(-2); V32K(INT32_MIN); V32K(-65536); V32K((short)-1); V32K((signed char)-128);
+	V32K(-0x7fffffff); V32K(1); V32K(0x40000000); V32K(0x80000000); V32K(0xffffffffu); V32K(-1L); V32K(-256LL); V32K('\377');
+	V32K(~1u); V32K(1 << 30); V32K(-(1 << 30)); V32K(0x7fffffff); V32K(65535); V32K(-32768);
+}
 static void v64(uint64_t c, int popk, int lssbk)
 {
 	volatile uint64_t rt = c;         /* run-time value: the macros expand to inline code */
 	printf("{\"e\":\"B64\",\"c\":[");
 	for (int i = 0; i < 8; i++) printf("%s%u", i ? "," : "", (unsigned)((c >> (8 * i)) & 0xff));
-	printf("],\"pop\":%d,\"lssb\":%d,\"popk\":%d,\"lssbk\":%d,\"o\":[%d,%d]}\n", (int)const_pop(rt), (int)const_lssb(rt), popk, lssbk,
-	       o_pop(c), c ? o_ctz(c, 64) : -1);
+	/* lneg: is the value itself negative (and not merely something that converts to -1)? */
+	printf("],\"pop\":%d,\"lssb\":%d,\"popk\":%d,\"lssbk\":%d,\"lneg\":%d,\"pneg\":%d,\"o\":[%d,%d]}\n", (int)const_pop(rt), (int)const_lssb(rt), popk, lssbk,
+	       const_lssb(rt) < 0 ? 1 : 0, const_pop(rt) < 0 ? 1 : 0, o_pop(c), c ? o_ctz(c, 64) : -1);
 }
 /* compile-time constants: the macros must collapse to the same values in constant expressions */
 #define KLIST(K) K(0x0ull) K(0x1ull) K(0x2ull) K(0x8000000000000000ull) K(0xffffffffffffffffull) K(0x00000000ffffffffull) \
@@ -33,13 +47,14 @@ static void v64(uint64_t c, int popk, int lssbk)
 	K(0x5555555555555555ull) K(0xaaaaaaaaaaaaaaaaull) K(0x0123456789abcdefull) K(0x8000000000000001ull) K(0x0000000000010000ull) \
 	K(0x0000000000008000ull) K(0x00000000000000f0ull) K(0x000000000000000cull) K(0x0400000000000000ull) K(0x0000002000000000ull) \
 	K(0xfffffffffffffffeull) K(0x7fffffffffffffffull) K(0x00ff00ff00ff00ffull) K(0x1000000010000000ull)
-#define KENT(c) { c, const_pop(c), const_lssb(c) },
-static const struct { uint64_t c; int pop; int lssb; } ktab[] = { KLIST(KENT) };
+#define KENT(c) { c, const_pop(c), const_lssb(c), const_lssb(c) < 0 },
+static const struct { uint64_t c; int pop; int lssb; int lneg; } ktab[] = { KLIST(KENT) };
 
 static void vectors(long seed, long nrandom)
 {
 	drv_srand(seed);
 	v32(0); v32(0xffffffffu);
+	v32_constants();
 	for (int i = 0; i < 32; i++) {
 		v32(1u << i); v32(~(1u << i));
 		for (int j = i + 1; j < 32; j++) { v32((1u << i) | (1u << j)); }
@@ -51,7 +66,10 @@ static void vectors(long seed, long nrandom)
 				for (unsigned b = 0; b < 16; b += (n2 - n1 == 1 ? 1 : 3))
 					v32((a << (4 * n1)) | (b << (4 * n2)));
 	for (long i = 0; i < nrandom; i++) v32(drv_rand() ^ (drv_rand() << 7));
-	for (unsigned i = 0; i < sizeof(ktab) / sizeof(ktab[0]); i++) v64(ktab[i].c, ktab[i].pop, ktab[i].lssb);
+	for (unsigned i = 0; i < sizeof(ktab) / sizeof(ktab[0]); i++) {
+		v64(ktab[i].c, ktab[i].pop, ktab[i].lssb);
+		printf("{\"e\":\"K64neg\",\"zero\":%d,\"lneg\":%d}\n", ktab[i].c == 0, ktab[i].lneg);
+	}
 	for (int i = 0; i < 64; i++) {
 		v64(1ull << i, -99, -99);
 		for (int j = i + 1; j < 64; j += (i % 3) + 1) v64((1ull << i) | (1ull << j), -99, -99);
